@@ -62,7 +62,7 @@ procedure cancel_task(ct, who)
       return;
 }
 
-process (intake = "intake")
+fair process (intake = "intake")
   variables qi = Order, it = CHOOSE x \in T : TRUE;
 {
   I0: while (qi # <<>>) {
@@ -89,7 +89,7 @@ process (intake = "intake")
   I9: intakeDone := TRUE;
 }
 
-process (watcher = "watcher")
+fair process (watcher = "watcher")
   variables tw = <<>>, wi = 1, wt = CHOOSE x \in T : TRUE, toadv = {};
 {
   W0: while (~Settled) {
@@ -125,7 +125,7 @@ process (watcher = "watcher")
       }
 }
 
-process (control = "control")
+fair process (control = "control")
   variables qc = CancelMsgs, cu = {}, cx = CHOOSE x \in T : TRUE;
 {
   C0: while (qc # <<>>) {
@@ -141,7 +141,7 @@ process (control = "control")
   C9: controlDone := TRUE;
 }
 
-process (timeout = "timeout")
+fair process (timeout = "timeout")
   variables due = {}, tx = CHOOSE x \in T : TRUE;
 {
   T0: while (~Settled) {
@@ -154,7 +154,7 @@ process (timeout = "timeout")
       }
 }
 
-process (proc \in T)
+fair process (proc \in T)
 {
   P0: await pst[self] = "running";
       pst[self]  := "exited";
@@ -636,7 +636,12 @@ Next == intake \/ watcher \/ control \/ timeout
            \/ (\E self \in T: proc(self))
            \/ Terminating
 
-Spec == Init /\ [][Next]_vars
+Spec == /\ Init /\ [][Next]_vars
+        /\ WF_vars(intake) /\ WF_vars(cancel_task("intake"))
+        /\ WF_vars(watcher)
+        /\ WF_vars(control) /\ WF_vars(cancel_task("control"))
+        /\ WF_vars(timeout) /\ WF_vars(cancel_task("timeout"))
+        /\ \A self \in T : WF_vars(proc(self))
 
 Termination == <>(\A self \in ProcSet: pc[self] = "Done")
 
